@@ -93,12 +93,26 @@ pub fn build_gadget(
             });
             returned.insert("bits".into(), json!(r));
         }
-        "mul_generator" => {
-            // fixed-base multiplication with the standard generator; the scalar is the input
+        "mul_generator" | "fixed_digits" => {
+            // fixed-base multiplication; generator = [k]G_standard (k = args[1], default 1; k = "nums"
+            // selects the second standard generator); the scalar is the input.  `fixed_digits`
+            // goes through the seam with an all-zero digit vector (same rows for any scalar value).
             let sc = inp(c, "s");
-            match c.component_mul_generator(sc, dusk_jubjub::GENERATOR_EXTENDED) {
-                Ok(r) => {
-                    returned.insert("out".into(), json!([r.x().index(), r.y().index()]));
+            let generator = match args.get(1).map(|x| x.as_str()) {
+                None | Some("1") => dusk_jubjub::GENERATOR_EXTENDED,
+                Some("nums") => dusk_jubjub::GENERATOR_NUMS_EXTENDED,
+                Some(k) => dusk_jubjub::GENERATOR_EXTENDED * dusk_jubjub::JubJubScalar::from(k.parse::<u64>().expect("k")),
+            };
+            let ga = dusk_jubjub::JubJubAffine::from(generator);
+            returned.insert("gen".into(), json!([hex(&ga.get_u()), hex(&ga.get_v())]));
+            let r = if g == "fixed_digits" {
+                c.verif_fixed_base_signed_digits(sc, generator, &[0i8; 256]).map(|p| (p.x().index(), p.y().index()))
+            } else {
+                c.component_mul_generator(sc, generator).map(|p| (p.x().index(), p.y().index()))
+            };
+            match r {
+                Ok((x, y)) => {
+                    returned.insert("out".into(), json!([x, y]));
                 }
                 Err(e) => {
                     returned.insert("error".into(), json!(format!("{:?}", e)));
